@@ -109,8 +109,18 @@ class C18(ProgProp):
         # one traceback program in four: the failure is not raised by user code but is the
         # AssertionError of a request a flush left unanswered, and a second, unrelated chain awaits
         # another request the same flush forgot (decided by a digest: generator stream unchanged)
-        if zlib.crc32(repr(sorted(case.items())).encode()) % 4 == 0:
+        dg = zlib.crc32(repr(sorted(case.items())).encode())
+        if dg % 4 == 0:
             case["unset_pair"] = True
+        if (dg // 4) % 8 == 0:
+            # a chain of 45-70 task levels (the stack listing must still name every creator)
+            extra = 43 + (dg // 32) % 25
+            case["levels"] = case["levels"][:-1] + [{"how": "yield", "pre": 0, "catch": None, "siblings": 0, "sib_first": False, "container": "t"}
+                                                    for _ in range(extra)] + case["levels"][-1:]
+            case["depth"] = d + extra
+            case["stack_at"] = case["depth"] - 1 - (dg // 800) % 3
+            if case["swallow_at"] is not None:
+                case["swallow_at"] = min(case["swallow_at"], d - 2)
         return case
 
     def sample(self, case, r):
